@@ -39,11 +39,11 @@ manifest = {
         "name": "mc",
         "path": "/verif/mc",
         "serves_properties": [c["property_id"] for c in checks],
-        "kind_free_text": "hand-written bounded-exhaustive explorer for Python: explicit-state search over environment choices of the real framer (state hashing on generator frames + stateless cross-check), exhaustive history/interleaving enumeration, exhaustive program x input product enumeration against an independent reference interpreter",
+        "kind_free_text": "hand-written bounded-exhaustive explorer for Python: explicit-state search over environment choices of the real framer (state hashing on generator frames + stateless cross-check), exhaustive history/interleaving enumeration, exhaustive program x input product enumeration against an independent reference interpreter, exhaustive (or preemption-bounded) enumeration of the interleavings of real threads under a baton scheduler (mc/threadexplore.py); every check is repeated by a second interpreter (python -O, C locale) on a stated share of its partitions",
     }],
     "checks": checks,
     "not_applicable": na,
-    "notes": "Every check drives the real library through its public API inside a stated finite bound and compares every execution with an independent reference model; see DESIGN.md. known_findings.json lists repaired defects (status fixed, suppress nothing) and recorded findings (status known).",
+    "notes": "Every check drives the real library through its public API inside a stated finite bound and compares every execution with an independent reference model; see DESIGN.md (section 10.2 for what was added during the build: the second interpreter, kernel E-thread, the caller-environment dimensions). known_findings.json lists repaired defects (status fixed, suppress nothing) and recorded findings (status known).",
 }
 if not na:
     manifest["not_applicable"] = []
